@@ -19,7 +19,8 @@ pub struct XCase {
 }
 
 fn env_size() -> usize {
-    std::env::vars_os().map(|(k, v)| k.as_bytes().len() + 1 + v.as_bytes().len() + 1).sum()
+    // strings plus one pointer per variable, as the system limiter of /repo counts them
+    std::env::vars_os().map(|(k, v)| k.as_bytes().len() + 1 + v.as_bytes().len() + 1 + 8).sum()
 }
 
 fn arg_max() -> usize {
@@ -72,7 +73,7 @@ pub fn run_inproc(ctx: &Ctx, c: &XCase) -> (String, String) {
     std::env::remove_var("FU_PAD");
     if c.want_sys > 0 {
         let base = arg_max() - 2048 - env_size();
-        let overhead = "FU_PAD".len() + 1 + 1;
+        let overhead = "FU_PAD".len() + 1 + 1 + 8;
         if base > c.want_sys + overhead {
             let pad = base - c.want_sys - overhead;
             std::env::set_var("FU_PAD", "x".repeat(pad));
